@@ -1,5 +1,88 @@
 import QipVerif.Util.Proto
-/-! Driver stub (to be filled in by the owner of this model). -/
-open QipVerif.Proto
-def step (_line : String) : String := "bad-op"
+import QipVerif.Util.RatProto
+import QipVerif.Model.Grid
+/-! Driver for the grid/resampling model (C14).  Rationals are `p/q` or `p`; `-` is the empty list.
+
+* `tlist tol=r grids=<g>!<g>…`                   → `ok t,t,…` | `none`
+* `fill tol=r oldt=<g> oldc=<g> full=<g>`         → `ok c,c,…` | `err index`
+* `coeffs tol=r chans=<chan>!<chan>…`             → `ok <T>|<row>!<row>…` | `err <kind>`
+     `<chan>` = `n` | `b:0` | `b:1` | `b:1:<g>` | `a:<g>:<g>`
+* `slices t=<g> rows=<g>!<g>…`                    → `ok dt:c,c,…;dt:c,c,…`
+* `step tl=<g> cs=<g> t=r`                        → `ok v`
+* `header inctime=0|1 labels=<codes>;<codes>…`    → `ok <codes>`   (codes: `.`-separated code points)
+* `read inctime=0|1 line=<codes>`                 → `ok <codes>;<codes>…`
+* `readshape inctime=0|1 rows=R n=N`              → `ok len,len,…` (`x` = not an array)
+-/
+open QipVerif QipVerif.Proto QipVerif.RatProto QipVerif.Grid
+
+def errName : Err → String
+  | .index => "index" | .shape => "shape" | .type => "type"
+
+def g? (s : String) : Option (List Rat) := if s = "-" then some [] else ratList? s
+
+def chanP? (s : String) : Option Chan :=
+  match s.splitOn ":" with
+  | ["n"] => some .absent
+  | ["b", "0"] => some (.const false none)
+  | ["b", "1"] => some (.const true none)
+  | ["b", b, tl] => if b = "0" ∨ b = "1" then (g? tl).map (fun tl => .const (b = "1") (some tl)) else none
+  | ["a", tl, cs] => match g? tl, g? cs with
+    | some tl, some cs => some (.arr tl cs)
+    | _, _ => none
+  | _ => none
+
+def codes? (s : String) : Option (List Nat) := if s = "-" then some [] else (s.splitOn ".").mapM String.toNat?
+def showCodes (l : List Nat) : String := if l.isEmpty then "-" else ".".intercalate (l.map toString)
+
+def step (line : String) : String :=
+  let fs := fields line
+  match fs.head? with
+  | some "tlist" =>
+    match fRat? fs "tol", (fStr? fs "grids") with
+    | some tol, gs =>
+      match (match gs with | none => some [] | some s => (s.splitOn "!").mapM g?) with
+      | some grids => match fullTlist tol grids with
+        | none => "none"
+        | some T => "ok " ++ showRats T
+      | none => "bad-op"
+    | _, _ => "bad-op"
+  | some "fill" =>
+    match fRat? fs "tol", (fStr? fs "oldt").bind g?, (fStr? fs "oldc").bind g?, (fStr? fs "full").bind g? with
+    | some tol, some ot, some oc, some full =>
+      match fill tol ot oc full with
+      | .error e => "err " ++ errName e
+      | .ok r => "ok " ++ showRats r
+    | _, _, _, _ => "bad-op"
+  | some "coeffs" =>
+    match fRat? fs "tol", (fStr? fs "chans").bind (fun s => (s.splitOn "!").mapM chanP?) with
+    | some tol, some chans =>
+      match fullCoeffs tol chans with
+      | .error e => "err " ++ errName e
+      | .ok (T, rows) => "ok " ++ showRats T ++ "|" ++ "!".intercalate (rows.map showRats)
+    | _, _ => "bad-op"
+  | some "slices" =>
+    match (fStr? fs "t").bind g?, (fStr? fs "rows").bind (fun s => (s.splitOn "!").mapM g?) with
+    | some T, some rows =>
+      "ok " ++ ";".intercalate ((slices T rows).map fun s => showRat s.1 ++ ":" ++ showRats s.2)
+    | _, _ => "bad-op"
+  | some "step" =>
+    match (fStr? fs "tl").bind g?, (fStr? fs "cs").bind g?, fRat? fs "t" with
+    | some tl, some cs, some t => "ok " ++ showRat (stepAt tl cs t)
+    | _, _, _ => "bad-op"
+  | some "header" =>
+    match fNat? fs "inctime", (fStr? fs "labels").bind (fun s => (s.splitOn ";").mapM codes?) with
+    | some it, some labels => "ok " ++ showCodes (headerLine 35 32 10 59 (it = 1) labels)
+    | _, _ => "bad-op"
+  | some "read" =>
+    match fNat? fs "inctime", (fStr? fs "line").bind codes? with
+    | some it, some line => "ok " ++ ";".intercalate ((readLabels 59 (it = 1) line).map showCodes)
+    | _, _ => "bad-op"
+  | some "readshape" =>
+    match fNat? fs "inctime", fNat? fs "rows", fNat? fs "n" with
+    | some it, some rows, some n =>
+      "ok " ++ ",".intercalate ((List.range n).map fun i => match readCoeffLen (it = 1) rows n i with
+        | some r => toString r | none => "x")
+    | _, _, _ => "bad-op"
+  | _ => "bad-op"
+
 def main : IO Unit := serve step
